@@ -502,7 +502,10 @@ impl Name {
     /// assert_eq!(name.iter().next(), Some(&b"example"[..]));
     /// ```
     pub fn parse(local: &str, origin: Option<&Self>) -> ProtoResult<Self> {
+        // like `from_str_relaxed`: labels that IDNA refuses but that are plain ASCII DNS labels
+        // (e.g. an underscore inside a label, RFC 2181 section 11) are taken as they are
         Self::from_encoded_str::<LabelEncUtf8>(local, origin)
+            .or_else(|_| Self::from_encoded_str::<LabelEncAscii>(local, origin))
     }
 
     /// Will convert the string to a name only allowing ascii as valid input
